@@ -48,7 +48,7 @@ pub async fn start_mocks(specs: &[BackendSpec]) -> Result<(Arc<Shared>, Vec<Mock
     let shared = Shared::new();
     let mut mocks = vec![];
     for (i, s) in specs.iter().enumerate() {
-        let cfg = ServerCfg { ip: s.ip.clone(), label: s.label.clone(), auth: s.auth.clone(), auth_query: std::sync::Mutex::new(s.auth_query.clone()) };
+        let cfg = ServerCfg { ip: s.ip.clone(), label: s.label.clone(), auth: s.auth.clone(), auth_query: std::sync::Mutex::new(s.auth_query.clone()), failed_once: Default::default() };
         mocks.push(MockServer::start(i, cfg, shared.clone()).await.map_err(|e| format!("mock bind {}: {}", s.ip, e))?);
     }
     Ok((shared, mocks))
